@@ -20,7 +20,8 @@ func init() {
 			"(R3) the key built on the response side equals the key built on the request side field by field, the path-parameter component encodes name:value of the selected parameters; " +
 			"(R4) a response is stored only when no entry exists for the key (throttling: only for relevant statuses and a readable retry-after, with that value as TTL; caching: configured TTL); " +
 			"(R5) the insertion and the size accounting are in one critical section that re-validates current+item <= max, size is added on every insert and subtracted on delete; " +
-			"(R6) a replayed throttling response carries a fresh header map whose retry-after is calcNewRetryAfter(stored retry-after, now - creation time), which refuses when lapsed >= retryAfter and otherwise returns the difference; replay returns the stored status/body. " +
+			"(R6) a replayed throttling response carries a fresh header map whose retry-after is calcNewRetryAfter(stored retry-after, now - creation time), which refuses when lapsed >= retryAfter and otherwise returns the difference; replay returns the stored status/body; the two response SPOE groups of haproxy.cfg exclude early responses, an unknown retry_after_type is an error; " +
+			"(R7) a response the engine replayed from memory is not offered to the store again as if the provider had sent it (static reachability of the caching store from the early-response branch of DispatchOnRequest and the guard of that store). " +
 			"NOT decided: interaction of stale sleepers with re-stores, hash collisions.",
 		RuleText: "obligation = (rule, anchored construct) on SSA of the current tree: return-alternative conditions, must-lockset, literal field comparison of sibling key constructions, provenance of TTL and header values",
 		Run:      runC12,
@@ -284,6 +285,7 @@ func cacheCore(w *World, r *Report, la *LockAn, full bool) {
 }
 
 func runC12(w *World, r *Report) {
+	c12ReplayNotStoredAgain(w, r)
 	hrRetryAfterTypeLiteral(w, r, "R6")
 	hrCfgEarlyResponseNotFedBack(w, r, "R6")
 	hrRetryAfterHelpers(w, r, "R6")
@@ -718,4 +720,46 @@ func c12SizeArithmetic(w *World, r *Report) {
 		}
 	}
 	r.Check(nQ >= 1 && intQ == 0 && okRet, "R5", "calculateSize/scaled-in-floating-point", f.Pos(), "%d divisions, %d of them on integers; the byte count is converted to float64 first", nQ, intQ)
+}
+
+// c12ReplayNotStoredAgain (R7): a response the engine produced from memory is not offered to the
+// store as if the provider had sent it. The engine runs the response remedies on every early
+// response inside DispatchOnRequest (obtainModifiedEarlyResponse); the caching remedy's OnResponse
+// reads the clock again, and when the entry expired between the two readings the replayed body
+// is stored with a fresh time-to-live. Decided structurally: the store is reachable from the
+// early-response branch by static calls, and nothing on the way tells a replay from a provider
+// response (the store's guard is exactly "small enough" and "absent").
+func c12ReplayNotStoredAgain(w *World, r *Report) {
+	e := w.Fn(pkgRunner, "obtainModifiedEarlyResponse")
+	s := w.Fn(pkgRemedies, "CachingPlugin.OnResponse")
+	if e == nil || s == nil {
+		r.Undec("R7", "replay-not-stored-again", token.NoPos, "obtainModifiedEarlyResponse / CachingPlugin.OnResponse not found")
+		return
+	}
+	const key = "obtainModifiedEarlyResponse/replayed-response-is-not-stored-again"
+	reach := w.CallGraph().Reach([]*ssa.Function{e}, false)
+	if !reach[origin(s)] {
+		r.Hold("R7", key, e.Pos(), 1, "the caching remedy's OnResponse is not reachable from the early-response branch")
+		return
+	}
+	sets := CallsIn(s, false, "Cache).Set", "MemoryCache).Set")
+	if len(sets) != 1 {
+		r.Undec("R7", key, s.Pos(), "expected one store in CachingPlugin.OnResponse, found %d", len(sets))
+		return
+	}
+	var extra []string
+	for _, cd := range CondsOf(sets[0].Block()) {
+		p := Path(cd.V)
+		switch {
+		case strings.Contains(p, "MaxRecordSizeBytes"): // small enough
+		case strings.Contains(p, "Cache).Has(") && !cd.Pol: // absent
+		default:
+			extra = append(extra, condsString([]Cond{cd}))
+		}
+	}
+	if len(extra) > 0 {
+		r.Hold("R7", key, posOf(sets[0]), 1, "the store is guarded beyond size and absence (%v): taken as the guard that keeps replays out", extra)
+		return
+	}
+	r.Fail("R7", key, posOf(sets[0]), "CachingPlugin.OnResponse (store guarded only by size and absence) is reached from obtainModifiedEarlyResponse for every replayed response: an entry that expires between the replay's two clock readings is stored again with a fresh time-to-live")
 }
